@@ -28,6 +28,11 @@ class Unrepresentable(Exception):
     pass
 
 
+class HiddenC:
+    def __init__(self, n):
+        self.n = n
+
+
 class Opaque:
     """A value the contracts never look into."""
     def __init__(self, name):
@@ -440,7 +445,19 @@ class ConcBuilder:
         return o
 
     def list(self, items):
-        return list(items)
+        out = []
+        for x in items:
+            if isinstance(x, HiddenC):
+                out.extend(['7'] * x.n)
+            else:
+                out.append(x)
+        return out
+
+    def hidden(self, name):
+        return HiddenC(self.source.size(name))
+
+    def symdict(self, name, arity):
+        raise Unrepresentable('symbolic dictionary')
 
     def symlist(self, name, comps, scalar=False):
         n = self.source.size(name + '.len')
@@ -503,6 +520,9 @@ class ListC:
     def __init__(self, items):
         self.items = items
         self.len = len(items)
+
+    def last(self, k=1):
+        return cview(self.items[-k])
 
     def get(self, i):
         return cview(self.items[i])
